@@ -58,7 +58,7 @@ def valueBits (n : Node) : Nat :=
     let v := n.val.getInt32
     if v < 0 then negativeIvalue v nb else v.toNat
   | .codetable | .flagtable =>
-    let v := n.val.getInt32
+    let v := n.val.getInt64
     if v < 0 then missingIvalue nb else v.toNat
   | .ieee =>
     if nb = 64 then toDoubleBits n.val.getDouble else toFloatBits n.val.getFloat
@@ -102,7 +102,7 @@ def valueOfBits (n : Node) (v0 : Val) (ival : Nat) : Val :=
     | .f64 _ => .f64 (.fin (if ival = miss then maxDouble else Scale.cvtI64ToDval (sEnc e) ival))
     | other => other
   | .chngRef => v0.setInt32 (cvtIvalue ival e.nbits)
-  | .codetable | .flagtable => v0.setInt32 (if ival = miss then -1 else ival)
+  | .codetable | .flagtable => v0.setInt64 (if ival = miss then -1 else ival)
   | _ => v0
 
 /-- `bufr_get_desc_value(bufr, bd)`: `none` = read error (premature end of data) -/
@@ -147,7 +147,7 @@ def value2bits (n : Node) : Nat :=
     match e.type with
     | .numeric => (valueBits n : Int)
     | .chngRef => (valueBits n : Int)
-    | .codetable | .flagtable => let v := n.val.getInt32; if v < -1 then -1 else v
+    | .codetable | .flagtable => let v := n.val.getInt64; if v < -1 then -1 else v
     | _ => 0
   if iv = -1 then missingIvalue e.nbits else wrapU64 iv
 
@@ -269,7 +269,22 @@ def s4Estimate (ss : List (List Node)) : Nat :=
     (acc.1 + (nb / 8).toNat, nb % 8)) (0, 0)
   blen + (if nbits > 0 then 1 else 0)
 
-/-- the data part of `bufr_encode_message(dts, x_compress)`: Section 3 flag and Section 4 -/
+/-- `bufr_settle_new_refvalues`: a subset holding 2 03 YYY definitions gets Table C applied once
+more, each new reference value installed as it is met -/
+def settleLoop (T : Tables) (edition : Nat) : DDO → List Node → List Node × Bool
+  | _, [] => ([], false)
+  | ddo, n :: ns =>
+    let (ddo1, n1, e1) := applyTables2node T edition ddo n
+    let ddo2 := applyOpCrefval T ddo1 n1
+    let (r, e2) := settleLoop T edition ddo2 ns
+    (n1 :: r, e1 || e2)
+
+def settleNewRefs (T : Tables) (edition : Nat) (s : List Node) : List Node × Bool :=
+  if s.any (fun n => n.enc.type = .chngRef) then settleLoop T edition { enforce := .strict } s
+  else (s, false)
+
+/-- the data part of `bufr_encode_message(dts, x_compress)`: Section 3 flag and Section 4
+(`ss` already settled) -/
 def encodeData (ss : List (List Node)) (dataFlag : Nat) (xCompress : Int) : Nat × W :=
   let xc : Bool :=
     if xCompress > 0 then compressible ss
@@ -280,5 +295,13 @@ def encodeData (ss : List (List Node)) (dataFlag : Nat) (xCompress : Int) : Nat 
   let w0 := (W.new 0).alloc (s4Estimate ss)
   if !xc then (flag, ss.foldl (fun w s => s.foldl putDescValue w) w0)
   else (flag, (columns ss).foldl putColumn w0)
+
+/-- the Section 4 part of `bufr_end_message`: editions up to 3 pad the section to an even number
+of octets (4 header octets + data) with zero bits -/
+def padSection4 (edition : Nat) (w : W) : W :=
+  let len := w.filled + 4 + (if w.bitno > 0 then 1 else 0)
+  if edition ≤ 3 ∧ len % 2 = 1 then
+    w.putbits 0 (if w.bitno = 0 then 8 else 8 - w.bitno + 8)
+  else w
 
 end Bufr
